@@ -5,11 +5,15 @@ import props.audio_common as ac
 
 MANIFEST = {
     "level": "proof",
-    "text": "Sequence lemmas over the real register handlers with every APU field and the written value symbolic: for each of NR10-NR51, with sound powered on, ReadNRxx after WriteNRxx(v) equals v OR the DMG mask of the statement, from every pre-state; ReadNR52 equals 0x70 plus the power bit plus the four channel status bits; after WriteNR52 with bit 7 clear every register reads exactly its mask and NR52 reads 0x70, and the 16 bytes of wave RAM are unchanged (also after powering on again); while powered off, a write to any register other than NR52 and the length registers NR11/NR21/NR31/NR41 is proved to change no heap location at all (frame obligation over every APU object), and those four change only the channel's length counter; wave RAM written while channel 3 is off reads back the written byte at every address FF30-FF3F. Stability: the value read from every register NR10-NR51 and the non-status bits of NR52 is proved unchanged by a machine cycle of the APU - EndMachineCycle is executed with tickClock taken by contract, whose frame (assigns) clause, discharged against the real tickClock and tickFrameSequencer bodies, contains no field that backs a readable register bit. wave.trigger is proved to leave wave RAM unchanged unless channel 3 is retriggered while playing with its timer at 0 (the documented corruption).",
+    "text": "Sequence lemmas over the real register handlers with every APU field and the written value symbolic: for each of NR10-NR51, with sound powered on, ReadNRxx after WriteNRxx(v) equals v OR the DMG mask of the statement, from every pre-state; ReadNR52 equals 0x70 plus the power bit plus the four channel status bits; after WriteNR52 with bit 7 clear every register reads exactly its mask and NR52 reads 0x70, and the 16 bytes of wave RAM are unchanged (also after powering on again); while powered off, a write to any register other than NR52 and the length registers NR11/NR21/NR31/NR41 is proved to change no heap location at all (frame obligation over every APU object), and those four change only the channel's length counter; wave RAM written while channel 3 is off reads back the written byte at every address FF30-FF3F. Stability: the value read from every register NR10-NR51 and the non-status bits of NR52 is proved unchanged by a machine cycle of the APU - EndMachineCycle is executed with tickClock taken by contract, whose frame (assigns) clause, discharged against the real tickClock and tickFrameSequencer bodies, contains no field that backs a readable register bit. wave.trigger is proved to leave wave RAM unchanged unless channel 3 is retriggered while playing with its timer at 0 (the documented corruption). The four length registers are proved to load the length counter whether sound is on or off.",
     "note": "Trusted: go/ssa, engine semantics, z3. Routing of FF10-FF3F to these handlers is C06's decoder obligation. One built-in canary obligation must fail on every run.",
     "technique": "read-after-write and frame lemmas over the real go/ssa of the register handlers; z3 + frame (assigns) obligations of the clock functions",
     "design_ref": "DESIGN.md section 4 C18",
 }
+
+
+def DAC(name):
+    return any(name.endswith("#ensures:" + l) for l in ("dac", "status", "off", "on")) or "#requires:" in name
 
 
 def LEN(name):
@@ -30,6 +34,8 @@ def tasks(ctx):
                          Task(ac.A + "tickClock", ac.A + "tickClock", overrides=ac.OV, keep=FRAME),
                          # "while off, writes other than to NR52 and the length registers are ignored": the length registers are not -
                          # they load the counter whether sound is on or off
+                         # NR52's status bits: a channel whose DAC bits (NRx2 bits 7-3, NR30 bit 7) are written as zero reads as off
+                         *[Task(ac.A + r, ac.A + r, overrides=ac.OV, keep=DAC) for r in ("WriteNR12", "WriteNR22", "WriteNR30", "WriteNR42")],
                          Task(ac.A + "WriteNR11", ac.A + "WriteNR11", overrides=ac.OV, keep=LEN), Task(ac.A + "WriteNR21", ac.A + "WriteNR21", overrides=ac.OV, keep=LEN),
                          Task(ac.A + "WriteNR31", ac.A + "WriteNR31", overrides=ac.OV, keep=LEN), Task(ac.A + "WriteNR41", ac.A + "WriteNR41", overrides=ac.OV, keep=LEN),
                          Task(ac.A + "tickFrameSequencer", ac.A + "tickFrameSequencer", overrides=ac.OV, keep=FRAME)])
